@@ -67,6 +67,8 @@ Record envelope := Env { e_dest : str; e_uuid : str; e_payload : option (list N)
 Definition envelope_utf8 (e : envelope) : bool :=
   utf8_valid (e_dest e) && utf8_valid (e_uuid e) && md_utf8 (e_meta e).
 
+Definition env_of (dest : str) (m : msg) : envelope := Env dest (uuid m) (payload m) (meta m).
+
 Definition validate (e : envelope) : bool := negb (str_eqb (e_dest e) []).
 
 Section Envelope.
